@@ -36,3 +36,38 @@ for cse in (True, False):
     defs[f"mass_sum_{tag}"] = scalar(InvariantMass(ArraySum(p, q)), [p, q], [P, Q], cse)
 write_gen(out, "bridge/symgen_C07.py", defs)
 print("ok", {k: str(v)[:200] for k, v in defs.items()})
+
+# ---- optional second output: the polar helicity angle of the 3-body isobar decays (C07_dalitz.v) ----
+# theta_<a>^<ab> exactly as compute_helicity_angles registers it for the three relabellings of
+# create_isobar_topologies(3)[0] with final states 1, 2, 3 (initial state 0), through the generated
+# NumPy code (cse on and off), in the components E<i>, x<i>, y<i>, z<i> of p<i>.
+if len(sys.argv) > 2:
+    from qrules.topology import Topology, create_isobar_topologies  # noqa: E402
+
+    from ampform.kinematics.angles import compute_helicity_angles  # noqa: E402
+    from ampform.kinematics.lorentz import create_four_momentum_symbols  # noqa: E402
+
+    base = create_isobar_topologies(3)[0]
+    (spect0,) = [i for i, e in base.edges.items()
+                 if e.ending_node_id is None and e.originating_node_id == base.edges[-1].ending_node_id]
+    pair0 = sorted(set(base.outgoing_edge_ids) - {spect0})
+    (inter0,) = base.intermediate_edge_ids
+    ddefs = {}
+    for a, b, spect in [(1, 2, 3), (2, 3, 1), (1, 3, 2)]:
+        m = {-1: 0, spect0: spect, pair0[0]: a, pair0[1]: b, inter0: 4}
+        topo = Topology(nodes=base.nodes, edges={m[i]: e for i, e in base.edges.items()})
+        mom = create_four_momentum_symbols(topo)
+        angles = {str(k): v for k, v in compute_helicity_angles(mom, topo).items()}
+        name = f"theta_{a}^{a}{b}"
+        if name not in angles:
+            raise SystemExit(f"{name} is not registered for the topology ({a}{b}){spect}: {sorted(angles)}")
+        ids = (1, 2, 3)
+        inputs = [four_vector(str(i))[0] for i in ids]
+        for cse in (True, False):
+            tree = scalar(angles[name], [mom[i] for i in ids], inputs, cse)
+            extra = {s.name for s in tree.free_symbols} - {f"{c}{i}" for c in "Exyz" for i in (a, b)}
+            if extra:
+                raise SystemExit(f"{name} depends on {extra}")
+            ddefs[f"hel_theta_{a}_{a}{b}_{'cse' if cse else 'nocse'}"] = tree
+    write_gen(sys.argv[2], "bridge/symgen_C07.py (dalitz part)", ddefs)
+    print("ok-dalitz", {k: len(str(v)) for k, v in ddefs.items()})
